@@ -99,4 +99,44 @@ PROPS = {
         unverified=['unbounded circuit sizes', 'SSA Circuit::validate / eval under Kani (out of memory): enumeration only',
                     'Evaluator::run pre-checks of party count and bit counts'],
     ),
+    'C03': dict(
+        units=['arith', 'ops'],
+        deps=[('builder', 'C04'), ('panic', 'C02')],
+        witness=['c03', '--random', '3000'],
+        witness_thorough=['c03', '--exhaustive8', '--random', '40000', '--consts', '12'],
+        level='proof',
+        technique='Verus contracts on the real word-level circuits (adder, negation, subtraction, comparators, equality) against '
+                  'mathematical integers for every width, and on the operator arms of TypedExpr::compile lifted as functions (R5)',
+        claim='Unbounded deductive proof (Verus/Z3), for every bit width, builder state and input assignment, on the real code: '
+              'push_addition_circuit (sum + carry*2^n == x + y, carry into the MSB), push_negation_circuit (two\'s complement), '
+              'push_subtraction_circuit (overflow wire true iff x - y is not representable, exact otherwise; signed and unsigned), '
+              'push_comparator_circuit / push_gt_circuit / push_eq_circuit (exact signed/unsigned order and equality), and the lifted '
+              'compile arms for unary minus, + and -: an Overflow panic is recorded iff the exact result is not representable, the '
+              'result is exact otherwise. Multiplier, divider, shifter, casts and the composition inside compile are NOT proved: they '
+              'are covered by a bounded differential check through compile + eval against exact arithmetic (quick: boundary-directed '
+              'and random operands for all widths, all 16 binary operators, both unary operators, all casts, var/const operand modes; '
+              'thorough: additionally all 2^16 operand pairs of u8/i8 per operator and all source values of 8/16-bit casts).',
+        note='Trusted: builder-core and panic-record contracts (proved in units builder / panic, which this check runs too); vstd '
+             '(Vec, slices, pow2 lemmas); Vec::split_off via vstd; rules R0-R3, R5, R7-R9; a lone `;` inserted after a unit-typed tail '
+             'expression where a proof block must follow. The operand types of an arm are abstract (only signedness is used).',
+        title='integer operators bit-exact at every width: adder / negation / subtraction / comparators / equality and the -x, +, - arms proved; '
+              'mul / div / shifts / casts by bounded differential check',
+        unverified=['Op::Mul (array multiplier, constant rewrite), Op::Div / Op::Mod (restoring divider), shifts, Cast / extend_to_bits, '
+                    'bitwise ops, comparisons at arm level: bounded differential only',
+                    'operand width extension and the dispatch inside the big Op arm of compile'],
+    ),
+    'C13': dict(
+        units=['arith'],
+        deps=[('builder', 'C04')],
+        witness=None,
+        level='proof',
+        technique='Verus contracts on the real compare-exchange layer (push_gt_circuit, push_condswap, push_eq_circuit)',
+        claim='Unbounded deductive proof (Verus/Z3) of the compare-exchange layer used by join: push_gt_circuit returns exactly the unsigned '
+              'comparison of the first `bits` wires for every width; push_condswap swaps exactly when the selector is true; '
+              'push_eq_circuit is exact equality. The bitonic network topology (push_sorter / push_bitonic_merger / push_bitonic_sorter) and '
+              'compile_bitonic_merge (padding, tag bit, duplicate guard) are NOT under contract; a change there is not detected by this check.',
+        note='Trusted: as C04. Unverified: network topology and everything in compile_bitonic_merge / the join built-in.',
+        title='join: compare-exchange layer (gt / condswap / eq) exact for every width; network topology unverified',
+        unverified=['push_sorter, push_bitonic_merger, push_bitonic_sorter', 'compile_bitonic_merge, JoinLoop lowering, join built-in'],
+    ),
 }
